@@ -52,8 +52,12 @@ def _applicable(action, tmpl):
         return bool(t.get("lol"))
     if action in ("src8", "src9"):
         return len(G.SRC.get(t.get("src"), [])) > 9
+    if action in ("src10", "src11", "src12", "src13"):
+        return len(G.SRC.get(t.get("src"), [])) > 13
     if action in ("out_ec",):
         return t["type"] == "code" and bool(t.get("outputs")) and t["outputs"][-1].startswith("result")
+    if action in ("out_edit_ec", "out_edit2_ec"):
+        return t["type"] == "code" and len(t.get("outputs", ())) > 1 and t["outputs"][-1].startswith("result")
     if action in ("rerun", "ec", "out_edit", "out_edit2", "out_clear", "out_add", "out_add2", "out_del",
                   "out_ptr", "to_md", "out_add_front", "out_del_last", "rerun2", "out_edit_add",
                   "out_edit2_add2", "out_edit_md", "edit_rerun"):
